@@ -89,6 +89,52 @@ class Taint:
             return e.id
         return None
 
+    FRESH_CALLS = {"list", "sorted", "tuple", "set", "dict", "frozenset"}
+
+    def fresh(self, e):
+        """Does e evaluate to a container created by this function (its elements may be shared, the container itself is
+        not part of the store)?  ``list(x)``, ``sorted(x)``, ``x.copy()`` ... or a local name only ever bound to such."""
+        if isinstance(e, ast.Call):
+            f = e.func
+            if isinstance(f, ast.Name) and f.id in self.FRESH_CALLS:
+                return True
+            if isinstance(f, ast.Attribute) and f.attr == "copy" and not e.args:
+                return True
+            return False
+        if isinstance(e, (ast.ListComp, ast.SetComp, ast.DictComp, ast.List, ast.Set, ast.Dict, ast.Tuple)):
+            return True
+        if isinstance(e, ast.Name):
+            return e.id in self._fresh_names()
+        return False
+
+    def _fresh_names(self):
+        if getattr(self, "_fresh_cache", None) is None:
+            binds = {}
+            params = {a.arg for a in self.fn.args.args + self.fn.args.kwonlyargs + self.fn.args.posonlyargs}
+            for n in walk_no_nested(self.fn):
+                if isinstance(n, ast.Assign):
+                    for t in n.targets:
+                        if isinstance(t, ast.Name):
+                            binds.setdefault(t.id, []).append(n.value)
+                        else:
+                            for x in ast.walk(t):
+                                if isinstance(x, ast.Name) and isinstance(x.ctx, ast.Store):
+                                    binds.setdefault(x.id, []).append(None)
+                elif isinstance(n, (ast.For, ast.comprehension)):
+                    for x in ast.walk(n.target):
+                        if isinstance(x, ast.Name):
+                            binds.setdefault(x.id, []).append(None)
+                elif isinstance(n, (ast.AugAssign, ast.AnnAssign, ast.NamedExpr)) and isinstance(n.target, ast.Name):
+                    binds.setdefault(n.target.id, []).append(None)
+                elif isinstance(n, ast.withitem) and n.optional_vars is not None:
+                    for x in ast.walk(n.optional_vars):
+                        if isinstance(x, ast.Name):
+                            binds.setdefault(x.id, []).append(None)
+            self._fresh_cache = set()
+            self._fresh_cache = {name for name, vals in binds.items() if name not in params and
+                                 all(v is not None and not isinstance(v, ast.Name) and self.fresh(v) for v in vals)}
+        return self._fresh_cache
+
     def _bind(self, tgt, r):
         changed = False
         if isinstance(tgt, ast.Name):
@@ -140,6 +186,8 @@ class Taint:
                 else:
                     flat.append((t, k))
             for t, k in flat:
+                if isinstance(t, ast.Subscript) and self.fresh(t.value):
+                    continue          # a slot of a container this function created: not a write to the store
                 if isinstance(t, ast.Subscript):
                     r = self.root(t)
                     if r[0] is None:
@@ -156,7 +204,8 @@ class Taint:
                         else:
                             o = self.owner(t.value)
                             out.append(("attr:" + t.attr, o, "rebind", n))
-            if isinstance(n, ast.Call) and isinstance(n.func, ast.Attribute) and n.func.attr in MUTATING:
+            if isinstance(n, ast.Call) and isinstance(n.func, ast.Attribute) and n.func.attr in MUTATING \
+                    and not self.fresh(n.func.value):
                 r = self.root(n.func.value)
                 if r[0]:
                     out.append((r[0], r[1], "call:" + n.func.attr, n))
